@@ -15,6 +15,9 @@ CHECKS = {
  "C06": dict(cat="fault_enumeration", tech="deviation-bounded fault enumeration (all single, for tiny seeds all double, token/byte deviations of every seed) in disposable worker processes + real binary runs",
    text="All single deviations of every seed (double for tiny seeds) and all raw strings up to length 2 run through the library pipeline, four emitters and both DOT writers inside worker processes whose death or stall pinpoints the input; the real binary is run on every seed x shell x destination kind, on a representative of every distinct library outcome class, on all deviations of the smallest seeds and on invalid UTF-8, judged by exit status, stderr, stdout, destination file and byte-equality with the library pipeline.",
    note="trusted: worker/progress protocol; 10 s stall/timeout limits; 'complete script' = ends with the shell's registration trailer", ref="4/C06"),
+ "C07": dict(cat="exploration", tech="exhaustive bounded string enumeration x placements x four emitters with independent per-shell double-quote decoders; bash execution (bash -n, exact candidates, identical-word matching incl. glob near misses, canary)",
+   text="Every string up to the length bounds over the full admitted character set / the hot set is placed as top-level literal, literal inside a word and description, emitted for four shells and decoded back with that shell's quoting rules (the decoder fails on anything the shell would expand or on an unterminated constant); in bash the strings are additionally executed: syntax check, exact candidates for every prefix, a word is matched only by the identical literal (near misses with glob characters), nothing is executed or expanded (canary).",
+   note="trusted: decoders in harness/src/shells.rs; PowerShell typographic quotes are not judged (cannot be confirmed by execution here)", ref="4/C07"),
  "C08": dict(cat="fault_enumeration", tech="exhaustive placement of every mistake class in every context + verdict of every enumerated grammar against an independent mistake classifier",
    text="Every mistake class of the statement is planted in every context of a fixed context list (every nesting operator, 1-2 definition levels, word/non-word, statement orders, reachability situations for cycles) for all four shells, and additionally every tree of the bounded family is classified by the reference classifier R8; the library pipeline must accept exactly the clean ones and reject the others with a diagnostic of a planted class.",
    note="trusted: reference classifier harness/src/r8.rs; shapes on which statement and code can be read either way are counted as skipped, not judged", ref="4/C08"),
